@@ -183,6 +183,23 @@ CHECKS = {
              'only / not covered). One open known finding: g2i-exit-coupled-to-batch. ' + TB,
         technique='Lean 4 proof (vector algebra by ring/linear_combination/field_simp, Real.sqrt, HasDerivAt) + bit-exact Float '
                   'correspondence + independent SICD Volume 3 oracle'),
+    'C19': dict(
+        text='Lean 4 theorems, by induction over arbitrary operation histories, about two life-cycle state machines (reader / segment '
+             'tree with ownership options, file objects and temp files; writer with target ownership, in-memory vs real-file delivery, '
+             'pixel accounting): close idempotent and equal to context exit, every use after close refused with state unchanged, temp '
+             'files removed exactly at close, close reaches exactly what the ownership options say, caller file objects never closed '
+             'and owned ones closed, a closed writer always leaves the full declared size, existing path refused iff the check is on; '
+             'accounting clauses (never claims fully written unless complete; complete output in the caller file) for histories that do '
+             'not rewrite a row, with a proved counter-example otherwise. The machines are tied to sarpy on every run by op-history '
+             'correspondence over segment trees, generic / file readers and the NITF, SICD, SIDD, CPHD, SIO writers on path / BytesIO / '
+             'caller-opened file targets, plus a direct oracle of the clauses.',
+        design='DESIGN.md 3.8, 6/C19',
+        note='proof, partial: proved on the model for all histories; model <-> code by differential op traces (448 quick / ~11k thorough '
+             'histories incl. exhaustive short ones); GC is only del+collect under CPython, OS/page cache assumed, JPEG temp-file '
+             'readers, HDF5, CRSD and multi-segment NITF writers not exercised; DAG sharing only by oracle. One open known finding: '
+             'fully-written-claim-counts-rewritten-pixels. ' + TB,
+        technique='Lean 4 proof (invariants by induction over op lists) + op-sequence line-protocol correspondence + direct property '
+                  'oracle on observed object / file state'),
 }
 
 
